@@ -93,6 +93,11 @@ pub fn json_to_tree_keyed<const N: usize, X>(v: &Value) -> Result<Mappings<N, X>
 	json_to_tree_full(v, &mut |_n| None, true)
 }
 
+/// As `json_to_tree_keyed`, the entries of every level inserted in the opposite order when `rev` is set.
+pub fn json_to_tree_keyed_rev<const N: usize, X>(v: &Value, rev: bool) -> Result<Mappings<N, X>> {
+	json_to_tree_full(v, &mut |n| if rev { Some((0..n).rev().collect()) } else { None }, true)
+}
+
 fn key_parts(k: &str) -> Vec<&str> { k.split(' ').collect() }
 
 fn json_to_tree_full<const N: usize, X>(v: &Value, perm: &mut dyn FnMut(usize) -> Option<Vec<usize>>, keyed: bool) -> Result<Mappings<N, X>> {
